@@ -50,6 +50,16 @@ type sigEvent struct {
 	sigDesc string
 }
 
+// heldSig is a signature slice the caller still holds.
+type heldSig struct {
+	step     int
+	desc     string
+	sig      []byte
+	snap     []byte
+	enc      secec.SignatureEncoding
+	reported bool
+}
+
 type schEvent struct {
 	key int
 	aux []byte
@@ -70,6 +80,7 @@ type World struct {
 	byTriple map[string]int
 	digests  [][]byte
 	schs     []*schEvent
+	held     []heldSig
 }
 
 func hx(b []byte) string { return kernel.Hex(b) }
@@ -439,6 +450,7 @@ func Run(run *kernel.Run, prop string) {
 		case 7:
 			w.opLongHistory(step)
 		}
+		w.checkHeld(step)
 	}
 	run.Res.Steps = step
 	run.Res.Cfg["keys"] = len(w.keys)
